@@ -11,8 +11,12 @@ def register(R):
     register_summary(R)
     register_wrappers(R)
     # closure object returning its captured list: Content._get_bytes of the accumulating attachments
-    R.shape("BufFn", __call__=dict(returns="list", pure=True, noalloc=True, ensures=["result is self.buf"]))
-    R.fields_of("BufFn", buf="list")
+    # a zero-argument closure stored as Content._get_bytes: `lambda: xs` returns the captured list object itself (ghost field buf),
+    # `lambda: [e, ...]` returns a new list of the captured items (ghost field items)
+    R.shape("BufFn", __call__=dict(returns="list", pure=True,
+                                   ensures=["implies(fieldof(self, 'buf') is not absent(), ret is self.buf)",
+                                            "implies(fieldof(self, 'buf') is absent(), not allocated(ret) and listof(ret) == elems(fieldof(self, 'items')))"]))
+    R.fields_of("BufFn", buf="list", items="any")
     R.fields_of("Content", content_type="any", _get_bytes="BufFn")
     R.fields_of("_TestRecord", id="any", tags="anyset", details="dict[any=>Content]", status="any", timestamps="(any,any)")
     R.fields_of("_StreamToTestRecord", on_test="Callback", _inprogress="dict[any=>_TestRecord]")
